@@ -33,7 +33,8 @@ RULE = ("every tree of U(n) (n up to the tier bound) x {as generated, reversed/s
         "tree x every {1,2} length assignment; every ranked ultrametric tree x height pattern; directly and through "
         "each CSV write/read route); non-trivial = the tree has >= 3 leaves; plus a 'large representatives' layer that is "
         "exhaustive only over the stated set of 18 big trees in bounds()['large_representatives'] (ladders to 65 tips, balanced "
-        "to 64, stars to 100, a broom) with the same oracles and a stated family of subsets / pairs")
+        "to 64, stars to 100, a broom) with the same oracles and a stated family of subsets / pairs; plus histories on one matrix "
+        "object (query, re-compile for another tree or table, query) over the menu in bounds()['matrix_object_reuse']")
 ASSUMPTIONS = [
     "reference distances/edge counts/turning nodes are computed from snapshot paths (common prefix); live nodes are "
     "identified by their path through Node._child_nodes",
@@ -52,6 +53,8 @@ ASSUMPTIONS = [
     "UPGMA on ultrametric input is driven with distinct node heights (no ties), including one cherry at height zero "
     "(pendant lengths 0, 0.0 or missing: a distance of exactly 0.0 that is the unique minimum); the textbook-definition layer on "
     "non-ultrametric input skips inputs in which the exact (Fraction) reference meets a tie",
+    "object re-use: a matrix re-compiled for source B must answer every query as a fresh matrix of B would (the reference of B); "
+    "path steps, mrca, normalisation and write_csv are judged only when the matrix was last compiled from a tree",
     "CSV round trips are written with is_normalize_by_tree_size=False (the signature default of write_csv divides by the "
     "tree length; that default is not judged)",
 ]
@@ -83,6 +86,14 @@ def bounds(tier):
         "subset_family": "first, last, middle, {first,last}, {first,second}, last two, {middle,last}, every other (both phases), "
                          "all but first, all but last, all, first half, second half, taxa 9+10, 31+32, 63+64 where present",
         "exhaustive_over": "this stated set only"}
+    b["matrix_object_reuse"] = {
+        "sources": [m[0] for m in REUSE_MENU], "queries": [q[0] for q in REUSE_QUERIES],
+        "histories": ("one PhylogeneticDistanceMatrix object: [query q on A; re-compile the same object for B by compile_from_tree or "
+                      "compile_from_dict; query q'] for every ordered pair A != B of the sources x every decidable (q, q') (all q with "
+                      "both sources in one namespace, one q per family with separate namespaces; first matrix from from_tree, from the bare "
+                      "constructor, or from a table); [q; q'] on the same matrix without re-compiling for every (q, q'); triples over "
+                      "REUSE_TRIPLES for 4 queries; every query is judged by the path reference of the source the matrix was last compiled for"),
+        "not_deciding": "write_csv on a matrix compiled from a table (the unchanged library raises KeyError on the missing diagonal even without re-use)"}
     return b
 
 
@@ -1202,7 +1213,7 @@ def check_upgma_def(case, ctx):
 
 def chunks(tier):
     b = bounds(tier)
-    out = big_chunks(tier)      # the long ones first
+    out = big_chunks(tier) + reuse_chunks(tier)      # the long ones first
     for n in range(1, b["max_leaves"] + 1):
         ns = len(U.shapes(n))
         step = {1: 1, 2: 1, 3: 1, 4: 2, 5: 4, 6: 8}[n]
@@ -1227,6 +1238,345 @@ def chunks(tier):
         for lo in range(0, nb, step):
             out.append({"kind": "upgmadef", "n": n, "lo": lo, "hi": min(nb, lo + step), "tier": tier})
     return out
+
+
+# ---------------------------------------------------------------------------
+# layer R: histories on ONE PhylogeneticDistanceMatrix object
+#   [query q on source A; re-compile the SAME object for source B; query q'] - q' is judged by the
+#   path-based reference for B, never by another library call.
+
+REUSE_MENU = [
+    # (name, shape, labels, lengths: ("ultra", ranks, hpat) | pattern name)
+    ("abc", ((0, 1), 2), ["a", "b", "c"], ("ultra", "postorder", "int")),
+    ("abcde", (((0, 1), 2), (3, 4)), ["a", "b", "c", "d", "e"], ("ultra", "postorder", "int")),
+    ("de", (0, 1), ["d", "e"], ("ultra", "postorder", "int")),
+    ("acb", ((0, 2), 1), ["a", "b", "c"], ("ultra", "postorder", "quarter")),
+    ("star-bcdf", (0, 1, 2, 3), ["b", "c", "d", "f"], "cyc123"),
+    ("cdef", ((0, 1), (2, 3)), ["c", "d", "e", "f"], "cyc12"),
+]
+REUSE_ALL_LABELS = ["a", "b", "c", "d", "e", "f"]
+REUSE_TRIPLES = [(0, 1, 2), (1, 2, 0), (2, 0, 1), (1, 0, 4), (4, 5, 1), (5, 2, 3)]
+
+
+class Src(object):
+    """one source: the tree, its reference, and what the matrix is compiled from"""
+
+    def __init__(self, idx, ns, route):
+        name, shape, labels, lens = REUSE_MENU[idx]
+        self.name, self.labels, self.route = name, list(labels), route
+        if isinstance(lens, tuple):
+            self.sn = ultrametric_snapshot(shape, resolve_ranks(lens[1], shape), lens[2], labels=labels)
+            self.ultrametric = True
+        else:
+            self.sn = ref.mk(shape, lens=resolve_lens(lens, shape), labels=labels)
+            self.ultrametric = False
+        self.binary = U.is_binary(shape)
+        self.ns = ns
+        self.tree = build.build_tree((True, self.sn), ns)
+        self.R = RefIndex(self.sn)
+        self.tx = taxa_of(ns)
+        self.text = ref.to_newick(self.sn)
+        self.ref = {}
+        for a in labels:
+            for b2 in labels:
+                d, c, m, _ = self.R.between(self.R.leafpath[a], self.R.leafpath[b2])
+                self.ref[(a, b2)] = (d, c, m)
+        self.upairs = [(a, b2) for i, a in enumerate(labels) for b2 in labels[i + 1:]]
+        self.has_steps = route == "tree"      # a matrix compiled from a table knows distances only
+
+    def compile_into(self, pdm):
+        if self.route == "tree":
+            pdm.compile_from_tree(self.tree)
+        else:
+            # the table from_csv would hand over: one row per taxon, the cells to the right of the diagonal
+            dd = {}
+            for i, a in enumerate(self.labels):
+                dd[self.tx[a]] = dict((self.tx[b2], float(self.ref[(a, b2)][0])) for b2 in self.labels[i + 1:])
+            pdm.compile_from_dict(dd, self.ns)
+
+
+def _cmp(V, name, got, want, what, numeric=True):
+    okv = same(got, want, False) if numeric else (got == want)
+    if not okv:
+        V("%s|value" % name, "%s = %r, want %r (%s)" % (name, got, want, what))
+
+
+def q_patristic(pdm, S, V):
+    for a in S.labels:
+        for b2 in S.labels:
+            _cmp(V, "patristic_distance", pdm.patristic_distance(S.tx[a], S.tx[b2]), S.ref[(a, b2)][0], "%s,%s on %s" % (a, b2, S.text))
+
+
+def q_steps(pdm, S, V):
+    for a in S.labels:
+        for b2 in S.labels:
+            _cmp(V, "path_edge_count", pdm.path_edge_count(S.tx[a], S.tx[b2]), S.ref[(a, b2)][1], "%s,%s on %s" % (a, b2, S.text))
+
+
+def q_mrca(pdm, S, V):
+    ids = live_paths(S.tree)
+    for a in S.labels:
+        for b2 in S.labels:
+            got = ids.get(id(pdm.mrca(S.tx[a], S.tx[b2])), "not-a-node-of-the-tree")
+            _cmp(V, "mrca", got, S.ref[(a, b2)][2], "%s,%s on %s" % (a, b2, S.text), numeric=False)
+
+
+def _q_distances(weighted, normed):
+    def q(pdm, S, V):
+        k = 0 if weighted else 1
+        norm = 1.0
+        if normed:
+            norm = float(S.R.total) if weighted else float(S.R.n_nodes)
+        want = sorted(S.ref[p][k] / norm for p in S.upairs)
+        got = sorted(pdm.distances(is_weighted_edge_distances=weighted, is_normalize_by_tree_size=normed))
+        if len(got) != len(want) or not all(same(x, y, False) for x, y in zip(got, want)):
+            V("distances|value", "distances(weighted=%r, normalised=%r) = %r, want %r (%s)" % (weighted, normed, got, want, S.text))
+        _cmp(V, "sum_of_distances", pdm.sum_of_distances(is_weighted_edge_distances=weighted, is_normalize_by_tree_size=normed), sum(want), S.text)
+    return q
+
+
+def _q_summary(stat, weighted, normed, filt):
+    def q(pdm, S, V):
+        k = 0 if weighted else 1
+        members = list(S.labels)
+        fn = None
+        if filt == "first-two":
+            members = members[:2]
+        elif filt == "all-but-first":
+            members = members[1:]
+        if len(members) < 2:
+            return
+        if filt:
+            fn = lambda t, _m=frozenset(members): t._label in _m
+        norm = 1.0
+        if normed:
+            norm = float(S.R.total) if weighted else float(S.R.n_nodes)
+        if stat == "mean_pairwise_distance":
+            vals = [S.ref[(a, b2)][k] for i, a in enumerate(members) for b2 in members[i + 1:]]
+        else:
+            vals = [min(S.ref[(a, b2)][k] for b2 in members if b2 != a) for a in members]
+        want = sum(vals) / float(len(vals)) / norm
+        got = getattr(pdm, stat)(filter_fn=fn, is_weighted_edge_distances=weighted, is_normalize_by_tree_size=normed)
+        _cmp(V, stat, got, want, "taxa %r, weighted=%r, normalised=%r on %s" % (members, weighted, normed, S.text))
+    return q
+
+
+def q_iters(pdm, S, V):
+    want = sorted(S.labels)
+    _cmp(V, "taxon_iter", sorted(t._label for t in pdm.taxon_iter()), want, S.text, numeric=False)
+    _cmp(V, "__iter__", sorted(t._label for t in pdm), want, S.text, numeric=False)
+    wp = sorted(tuple(sorted(p)) for p in S.upairs)
+    gp = sorted(tuple(sorted((t1._label, t2._label))) for t1, t2 in pdm.distinct_taxon_pair_iter())
+    _cmp(V, "distinct_taxon_pair_iter", gp, wp, S.text, numeric=False)
+    f2 = frozenset(S.labels[:2])
+    gf = sorted(t._label for t in pdm.taxon_iter(filter_fn=lambda t: t._label in f2))
+    _cmp(V, "taxon_iter|filter", gf, sorted(f2), S.text, numeric=False)
+
+
+def q_table(pdm, S, V):
+    dt = pdm.as_data_table()
+    _cmp(V, "as_data_table|row-names", sorted(dt.row_name_iter()), sorted(S.labels), S.text, numeric=False)
+    _cmp(V, "as_data_table|column-names", sorted(dt.column_name_iter()), sorted(S.labels), S.text, numeric=False)
+    for a in S.labels:
+        for b2 in S.labels:
+            _cmp(V, "as_data_table|cell", dt[a, b2], S.ref[(a, b2)][0], "%s,%s on %s" % (a, b2, S.text))
+
+
+def q_csv(pdm, S, V):
+    import csv as _csv
+    buf = io.StringIO()
+    pdm.write_csv(buf, is_normalize_by_tree_size=False)
+    rows = list(_csv.reader(io.StringIO(buf.getvalue())))
+    head = rows[0][1:]
+    _cmp(V, "write_csv|header", sorted(head), sorted(S.labels), S.text, numeric=False)
+    _cmp(V, "write_csv|row-names", sorted(r[0] for r in rows[1:]), sorted(S.labels), S.text, numeric=False)
+    if sorted(head) != sorted(S.labels):
+        return
+    for r in rows[1:]:
+        for b2, cell in zip(head, r[1:]):
+            if r[0] in S.labels:
+                _cmp(V, "write_csv|cell", float(cell), S.ref[(r[0], b2)][0], "%s,%s on %s" % (r[0], b2, S.text))
+
+
+def q_nj(pdm, S, V):
+    if not S.binary:
+        return
+    want, _ = ref.split_lengths(S.sn, False)
+    for order in pool_orders(S.labels, "basic"):
+        if not force_order(V, pdm, order, "reuse"):
+            return
+        judge_nj(V, pdm.nj_tree(), "reuse", S.labels, want, S.text)
+
+
+def q_upgma(pdm, S, V):
+    if not (S.binary and S.ultrametric):
+        return
+    hs = heights_of(S.sn)
+    want = dict((cl, (0 if not isinstance(h, list) else h[0])) for cl, h in hs.items())
+    for order in pool_orders(S.labels, "basic"):
+        if not force_order(V, pdm, order, "reuse"):
+            return
+        judge_upgma(V, pdm.upgma_tree(), "reuse", S.labels, want, True, S.text)
+
+
+# name -> (family, needs path steps / tree size?, function)
+REUSE_QUERIES = [
+    ("patristic_distance", "pairwise", False, q_patristic),
+    ("path_edge_count", "pairwise", True, q_steps),
+    ("mrca", "pairwise", True, q_mrca),
+    ("distances", "list", False, _q_distances(True, False)),
+    ("distances|unweighted", "list", True, _q_distances(False, False)),
+    ("distances|normalized", "list", True, _q_distances(True, True)),
+    ("mean_pairwise_distance", "summary", False, _q_summary("mean_pairwise_distance", True, False, None)),
+    ("mean_pairwise_distance|filter", "summary", False, _q_summary("mean_pairwise_distance", True, False, "first-two")),
+    ("mean_pairwise_distance|normalized", "summary", True, _q_summary("mean_pairwise_distance", True, True, None)),
+    ("mean_pairwise_distance|unweighted", "summary", True, _q_summary("mean_pairwise_distance", False, False, None)),
+    ("mean_nearest_taxon_distance", "summary", False, _q_summary("mean_nearest_taxon_distance", True, False, None)),
+    ("mean_nearest_taxon_distance|filter", "summary", False, _q_summary("mean_nearest_taxon_distance", True, False, "all-but-first")),
+    ("mean_nearest_taxon_distance|normalized", "summary", True, _q_summary("mean_nearest_taxon_distance", True, True, None)),
+    ("mean_nearest_taxon_distance|unweighted", "summary", True, _q_summary("mean_nearest_taxon_distance", False, False, None)),
+    ("taxon-iterators", "iter", False, q_iters),
+    ("as_data_table", "table", False, q_table),
+    # write_csv reads the diagonal cells, which a matrix compiled from a table does not have (KeyError on the
+    # unchanged library even without any re-use: from_csv(...).write_csv(...)); judged on tree-compiled matrices only
+    ("write_csv", "table", True, q_csv),
+    ("nj_tree", "tree-building", False, q_nj),
+    ("upgma_tree", "tree-building", False, q_upgma),
+]
+REUSE_Q = dict((q[0], q) for q in REUSE_QUERIES)
+
+
+def reuse_queries_for(route):
+    return [q[0] for q in REUSE_QUERIES if route == "tree" or not q[2]]
+
+
+def _reuse_sources(case):
+    """fresh namespaces and trees for the steps of one history"""
+    steps = case["steps"]          # [[menu index, route], ...]
+    shared = build.make_namespace(REUSE_ALL_LABELS, "exact")[0] if case["ns"] == "same" else None
+    out = []
+    for i, (idx, route) in enumerate(steps):
+        if i and list(steps[i - 1]) == [idx, route]:
+            out.append(out[-1])         # no re-compile: the very same source
+            continue
+        ns = shared if shared is not None else build.make_namespace(REUSE_MENU[idx][2], "exact")[0]
+        out.append(Src(idx, ns, route))
+    return out
+
+
+def check_reuse(case, ctx, srcs=None):
+    """case: steps [[menu idx, route], ...] (consecutive equal steps = no re-compile: the same matrix queried
+    again), queries [q per step], ns same|different, first: from_tree|constructor"""
+    V0 = Viol(ctx, case)
+    if srcs is None:
+        srcs = _reuse_sources(case)
+    pdm = None
+    prev = None
+    trail = []
+    nq = 0
+    for si, (S, qname) in enumerate(zip(srcs, case["queries"])):
+        step = case["steps"][si]
+        if si == 0:
+            if S.route == "tree" and case.get("first", "from_tree") == "from_tree":
+                pdm = S.tree.phylogenetic_distance_matrix()
+                how = "from_tree"
+            else:
+                pdm = PhylogeneticDistanceMatrix()
+                S.compile_into(pdm)
+                how = "compile_from_" + S.route
+        elif step == prev:
+            how = "same"
+        else:
+            how = "compile_from_" + S.route
+            try:
+                S.compile_into(pdm)
+            except Exception as e:
+                V0("pdm-reuse|%s|re-compile|exception|%s" % ("->".join(trail + [how]), type(e).__name__),
+                   "re-compiling the matrix for %s raised %r" % (S.text, e))
+                return nq
+        trail.append(how)
+        prev = step
+        fam, _, fn = REUSE_Q[qname][1:]
+        if si == 0:
+            prefix = "pdm-reuse|%s|first|" % how
+        else:
+            prefix = "pdm-reuse|%s|after-%s|" % ("->".join(trail[-2:]), REUSE_Q[case["queries"][si - 1]][1])
+        hist = "; ".join("%s[%s] then %s" % (t, s2.name, q2) for t, s2, q2 in zip(trail, srcs, case["queries"]))
+
+        def V(sig, msg, _p=prefix, _h=hist):
+            V0(_p + sig, "%s  {history: %s}" % (msg, _h))
+        nq += 1
+        try:
+            fn(pdm, S, V)
+        except Exception as e:
+            V("%s|exception|%s" % (qname, type(e).__name__), "%s raised %r on the matrix of %s" % (qname, e, S.text))
+    return nq
+
+
+def reuse_chunks(tier):
+    out = []
+    m = len(REUSE_MENU)
+    for a in range(m):
+        for b2 in range(m):
+            out.append({"kind": "reuse", "a": a, "b": b2, "n": 0, "tier": tier})
+    out.append({"kind": "reuse3", "n": 0, "tier": tier})
+    return out
+
+
+REUSE_REP = ["patristic_distance", "distances", "mean_pairwise_distance", "mean_nearest_taxon_distance",
+             "mean_nearest_taxon_distance|filter", "taxon-iterators", "as_data_table", "nj_tree"]
+
+
+def run_reuse(chunk, ctx):
+    cache = {}
+
+    def go(case):
+        key = (case["ns"], tuple(map(tuple, case["steps"])))
+        if key not in cache:            # sources are only read by the matrix; replay() builds them afresh
+            cache[key] = _reuse_sources(case)
+        q = check_reuse(case, ctx, cache[key])
+        ctx.case(("reuse", key, tuple(case["queries"]), case.get("first")), True, n=q)
+        ctx.count("reuse_histories")
+        ctx.count("reuse_queries", q)
+    if chunk["kind"] == "reuse3":
+        qs = ["mean_nearest_taxon_distance", "mean_pairwise_distance", "taxon-iterators", "nj_tree"]
+        for tri in REUSE_TRIPLES:
+            for nsmode in ("same", "different"):
+                for routes in (("tree", "tree", "tree"), ("tree", "dict", "tree"), ("dict", "tree", "dict")):
+                    for q1 in qs:
+                        for q3 in qs:
+                            for q2 in (q1, q3):
+                                go({"kind": "reuse", "steps": [[i, r] for i, r in zip(tri, routes)], "queries": [q1, q2, q3], "ns": nsmode, "first": "constructor"})
+        ctx.sample({"layer": "matrix object re-use", "history": "query on A; compile_from_tree(B); query; compile_from_dict(C); query", "triples": len(REUSE_TRIPLES)}, 1)
+        return None
+    a, b2 = chunk["a"], chunk["b"]
+    summaries = [q[0] for q in REUSE_QUERIES if q[1] == "summary"]
+    if a == b2:
+        # the same matrix queried twice (different options / different queries), no re-compile
+        for r in ("tree", "dict"):
+            qs = reuse_queries_for(r)
+            for q1 in qs:
+                for q2 in qs:
+                    go({"kind": "reuse", "steps": [[a, r], [a, r]], "queries": [q1, q2], "ns": "same", "first": "from_tree"})
+        return None
+    for r2 in ("tree", "dict"):
+        q2s = reuse_queries_for(r2)
+        for q2 in q2s:
+            # same namespace: every first query, both kinds of first matrix
+            for q1 in reuse_queries_for("tree"):
+                go({"kind": "reuse", "steps": [[a, "tree"], [b2, r2]], "queries": [q1, q2], "ns": "same", "first": "from_tree"})
+            for q1 in reuse_queries_for("dict"):
+                go({"kind": "reuse", "steps": [[a, "dict"], [b2, r2]], "queries": [q1, q2], "ns": "same", "first": "constructor"})
+            # different namespaces: one first query per family (+ both nearest-taxon forms)
+            for q1 in REUSE_REP:
+                go({"kind": "reuse", "steps": [[a, "tree"], [b2, r2]], "queries": [q1, q2], "ns": "different", "first": "from_tree"})
+            # first matrix made by the bare constructor + compile_from_tree: the summaries
+            if q2 in summaries:
+                for q1 in summaries:
+                    go({"kind": "reuse", "steps": [[a, "tree"], [b2, r2]], "queries": [q1, q2], "ns": "same", "first": "constructor"})
+    ctx.sample({"layer": "matrix object re-use", "history": "query on %s; re-compile the same object for %s; query" % (REUSE_MENU[a][0], REUSE_MENU[b2][0]),
+                "queries": [q[0] for q in REUSE_QUERIES]}, 1)
+    return None
 
 
 BIG_PARTS = ("pdm", "ndm", "mrca", "algo")
@@ -1292,6 +1642,8 @@ def run_big(chunk, ctx):
 def run_chunk(chunk, ctx):
     if chunk["kind"] == "big":
         return run_big(chunk, ctx)
+    if chunk["kind"] in ("reuse", "reuse3"):
+        return run_reuse(chunk, ctx)
     return {"dist": run_dist, "mrca": run_mrca, "nj": run_nj, "upgma": run_upgma, "upgmadef": run_upgmadef}[chunk["kind"]](chunk, ctx)
 
 
@@ -1533,7 +1885,7 @@ def run_upgmadef(chunk, ctx):
 def replay(case, ctx):
     k = case.get("kind")
     fn = {"pdm": check_pdm, "tm": check_tm, "ndm": check_ndm, "mrca": check_mrca, "mrca_start": check_mrca_start,
-          "nj": check_nj, "upgma": check_upgma, "upgmadef": check_upgma_def, "csvmat": check_csvmat}.get(k)
+          "nj": check_nj, "upgma": check_upgma, "upgmadef": check_upgma_def, "csvmat": check_csvmat, "reuse": check_reuse}.get(k)
     if fn is None:
         raise ValueError("unknown case kind %r" % k)
     fn(case, ctx)
